@@ -68,6 +68,11 @@ def main(chk, replay=None):
             chk.violation('C16/truncated-analysis-read-silently', {'layout': lay, 'fault': flt, 'bytes': st['file']},
                           'refused, or the ANALYSIS keywords of the intact file',
                           {'k': obs.get('k'), 'analysis_pairs_read': len(obs.get('analysis', [])), 'warnings': obs.get('warn')})
+        if dlt is None and st.get('cls') == 'keyword-skipped':
+            # named deviation KeywordSkipped of Gen_C01.tla
+            chk.violation('C16/text-begin-on-keyword-boundary-read-silently', {'layout': lay, 'fault': flt, 'bytes': st['file']},
+                          'refused, or the keywords of the intact file',
+                          {'k': obs.get('k'), 'keywords_read': len(obs.get('text', []))})
         if dlt is None and st.get('cls') == 'stext-shift':
             # named deviation STextShift of Gen_C01.tla: the supplemental TEXT offsets carry no redundancy
             chk.violation('C16/stext-offset-corruption-read-silently', {'layout': lay, 'fault': flt, 'bytes': st['file']},
